@@ -28,7 +28,7 @@ ENGINES = [
     {
         "name": "E1-enumerator",
         "path": "mc/par.py",
-        "serves_properties": ["C01", "C03", "C13"],
+        "serves_properties": ["C01", "C03", "C04", "C05", "C06", "C07", "C08", "C09", "C10", "C13"],
         "kind_free_text": "bounded-exhaustive enumeration of a closed input space, sharded over 16 processes, every case "
         "executed on the real code and compared with a reference model",
     },
@@ -80,6 +80,42 @@ CHECKS = [
         "design_ref": "DESIGN.md section 2, C03",
         "note": "Trusted base: my transcription of Sugar's syntax and of CspuzSugarInterface.java's output (mc/sugar_model.py). No "
         "real external solver binary exists offline, so only cspuz's side of the wire is validated.",
+    },
+    {
+        "id": "C04",
+        "engine": "E1-enumerator",
+        "category": "exploration",
+        "technique": "bounded-exhaustive enumeration of all small graphs/grids x all activity patterns, each decided on the real encoding (+z3 backend) against a plain graph-algorithm oracle",
+        "text": "All labelled graphs n<=4 (5 thorough) in several edge-list presentations and all grids up to 8 (12) cells x all 2^n patterns x is_active forms (variables, negations, constants, mixed, x==y) x acyclic x encoding selection; every (case, pattern) is one find_answer compared with induced-connectivity / tree oracle.",
+        "design_ref": "DESIGN.md section 2, C04",
+        "note": "Encoding + cspuz z3 backend are the implementation under test; native route uses R-native semantics via mc/native_backend.py. Larger graphs: small-scope argument (per-vertex local encoding).",
+    },
+    {
+        "id": "C06",
+        "engine": "E1-enumerator",
+        "category": "exploration",
+        "technique": "bounded-exhaustive enumeration of all small graphs/grids x all activity patterns, each decided on the real encoding (+z3 backend) against a plain graph-algorithm oracle",
+        "text": "All loop-free multigraphs up to an edge bound and all BoolGridFrame sizes up to 12 (17) edges x all edge subsets; cycle with both encodings, path native-only; admitted subsets additionally force the returned passed array (second UNSAT solve).",
+        "design_ref": "DESIGN.md section 2, C06",
+        "note": "Native route decided with R-native semantics on the line graph; loops outside the quantifier.",
+    },
+    {
+        "id": "C08",
+        "engine": "E1-enumerator",
+        "category": "exploration",
+        "technique": "bounded-exhaustive enumeration of all small graphs/grids x all activity patterns, each decided on the real encoding (+z3 backend) against a plain graph-algorithm oracle",
+        "text": "All labelled graphs n<=4 (5) and all grids up to 9 (12) cells incl. every 1xN/Nx1 x all patterns; three-way differential definition / graph route / specialised grid route.",
+        "design_ref": "DESIGN.md section 2, C08",
+        "note": "Encoding + z3 backend under test; empty inactive set counts as connected.",
+    },
+    {
+        "id": "C09",
+        "engine": "E1-enumerator",
+        "category": "exploration",
+        "technique": "bounded-exhaustive enumeration of all small graphs/grids x all activity patterns, each decided on the real encoding (+z3 backend) against a plain graph-algorithm oracle",
+        "text": "All loop-free multigraphs n<=4 with <=5 (6) edges (+ all 5-vertex simple graphs with <=7 edges in thorough) x all edge subsets x flag forms (variables, negations, constants, x|y, paired v/~v).",
+        "design_ref": "DESIGN.md section 2, C09",
+        "note": "Encoding + z3 backend under test; loops outside the quantifier.",
     },
     {
         "id": "C13",
